@@ -247,6 +247,10 @@ fn membership_invariant<C: CT>(cx: &Ctx<C>, h: &Hist<C>, y: &St<C>, acc: &mut Ac
 }
 
 fn visit<C: CT>(cx: &Ctx<C>, node: &Node<C>, acc: &mut Accu) {
+    if past_deadline() {
+        acc.count("histories_skipped_by_wall_cap", 1);
+        return;
+    }
     let children = attempt_all(cx, node, acc, true);
     if node.h.n() >= cx.part.max_len {
         return;
@@ -449,6 +453,7 @@ fn attempt_all<C: CT>(cx: &Ctx<C>, node: &Node<C>, acc: &mut Accu, want_children
 
 fn run_part<C: CT>(rep: &mut Report, part: &Part) {
     let t0 = std::time::Instant::now();
+    let c0 = cpu_s();
     let cx = Ctx::<C> {
         part,
         cands: part.alpha.cands::<C>(),
@@ -502,8 +507,11 @@ fn run_part<C: CT>(rep: &mut Report, part: &Part) {
         o.insert("conditions".into(), json!(C::NAME));
         o.insert("canonical_generation_order_only".into(), json!(part.canonical));
         o.insert("wall_s".into(), json!(t0.elapsed().as_secs_f64()));
+        o.insert("cpu_s".into(), json!(cpu_s() - c0));
     }
-    eprintln!("  part {name}: {:.1}s", t0.elapsed().as_secs_f64());
+    if std::env::var("VERIF_VERBOSE").is_ok() {
+        eprintln!("  part {name}: wall {:.1}s cpu {:.1}s", t0.elapsed().as_secs_f64(), cpu_s() - c0);
+    }
     rep.part(v);
 }
 
@@ -580,6 +588,7 @@ pub fn parts(thorough: bool, conditioned: bool) -> Vec<Part> {
 
 pub fn run(mut rep: Report) -> i32 {
     let thorough = rep.thorough();
+    set_deadline(thorough);
     rep.rule = "one evaluation = one attempted operation (author x group x action x declared dependency set) on a replica holding one accepted history; the real process() verdict is compared with the reference authoriser evaluated on the state at the declared dependencies; non-trivial = attempts the reference classifies as unauthorised (author not an active manager of an existing group)".into();
     for p in parts(thorough, false) {
         run_part::<()>(&mut rep, &p);
@@ -594,5 +603,6 @@ pub fn run(mut rep: Report) -> i32 {
     rep.assume("operations are only offered to replicas that already hold their dependencies (causal delivery is a documented precondition of process())");
     rep.assume("process() takes the replica by value, so 'a rejected operation leaves the replica unchanged' can only be observed on the caller's copy; that copy is re-queried after all attempts");
     rep.assume("accepted histories start with `create G` by a (symmetry); attempts on the empty replica are enumerated separately; the search does not continue below an operation that was wrongly accepted");
+    report_cap(&mut rep);
     rep.finish()
 }
